@@ -539,6 +539,14 @@ type vfResp struct {
 
 // Do sends one HTTP/3 request on this connection. authority becomes :authority.
 func (r *vfRaw) Do(method, authority, path string, hdr http.Header, body []byte) vfResp {
+	ctx, cancel := context.WithTimeout(context.Background(), 60*time.Second)
+	defer cancel()
+	return r.DoCtx(ctx, method, authority, path, hdr, body)
+}
+
+// DoCtx is Do under the caller's context: cancelling it makes the client reset the request stream
+// while the connection stays open.
+func (r *vfRaw) DoCtx(ctx context.Context, method, authority, path string, hdr http.Header, body []byte) vfResp {
 	var rd io.Reader
 	if body != nil {
 		rd = bytes.NewReader(body)
@@ -550,8 +558,6 @@ func (r *vfRaw) Do(method, authority, path string, hdr http.Header, body []byte)
 	for k, v := range hdr {
 		req.Header[k] = v
 	}
-	ctx, cancel := context.WithTimeout(context.Background(), 60*time.Second)
-	defer cancel()
 	resp, err := r.H3.RoundTrip(req.WithContext(ctx))
 	if err != nil {
 		return vfResp{Err: err}
@@ -563,13 +569,19 @@ func (r *vfRaw) Do(method, authority, path string, hdr http.Header, body []byte)
 
 // AuthReq sends POST https://hysteria/auth with the given credential and CC-RX header value.
 func (r *vfRaw) AuthReq(cred, rx string) vfResp {
+	ctx, cancel := context.WithTimeout(context.Background(), 60*time.Second)
+	defer cancel()
+	return r.AuthReqCtx(ctx, cred, rx)
+}
+
+func (r *vfRaw) AuthReqCtx(ctx context.Context, cred, rx string) vfResp {
 	h := http.Header{}
 	h.Set("Hysteria-Auth", cred)
 	if rx != "-" {
 		h.Set("Hysteria-CC-RX", rx)
 	}
 	h.Set("Hysteria-Padding", "verifpadding")
-	return r.Do(http.MethodPost, "hysteria", "/auth", h, nil)
+	return r.DoCtx(ctx, http.MethodPost, "hysteria", "/auth", h, nil)
 }
 
 // vfVarint appends a QUIC varint with the minimal width.
